@@ -167,7 +167,7 @@ package unite
 //@   requires [*] WFJ(dsc)
 //@   requires [C03 C09 C11] gOutN >= 0 && gB == gInN && gBprev <= gB && (gOutN + len(dsc.join) == gB || gOutN + len(dsc.join) == gBprev)
 //@   requires [C03] forall j :: 0 <= j && j < len(dsc.join) ==> dsc.join[j] == gIn[gOutN + j]
-//@   requires [C11] (gB - gBprev >= dsc.opts.JoinSize && gB != gBprev) ==> (len(dsc.join) == 0 || gOutN + len(dsc.join) == gBprev)
+//@   requires [C11] (gB - gBprev >= dsc.opts.JoinSize && gOutN + len(dsc.join) == gB && len(dsc.join) > 0) ==> gOutN == gBprev
 //@   requires [C08] OWN(dsc)
 //@   requires [C09] TIME(dsc)
 //@   requires [C09] dsc.opts.Timeout <= 0 ==> (len(dsc.join) == 0 || len(dsc.join) == dsc.opts.JoinSize || gClosed
